@@ -1076,11 +1076,15 @@ func (s *sidx) loadSnapshot(loadedParts, availablePartIDs []uint64) {
 		part := mustOpenPart(id, partPath, s.fileSystem)
 		pw := newPartWrapper(nil, part)
 		snp.addPart(pw)
+		// addPart took the snapshot's reference; drop the creator's one, otherwise
+		// a recovered part can never reach zero and is neither closed nor removed
+		// from disk after a merge or sync replaces it.
+		pw.release()
 	}
 	if snp.getPartCount() < 1 {
 		snp.release()
 		return
 	}
-	snp.acquire()
+	// newSnapshot's initial reference is the one s.snapshot holds.
 	s.snapshot = snp
 }
